@@ -73,7 +73,7 @@ def main(ck):
     if deps:
         live_files = [p for p in files if p.endswith(('.pyx', '.py'))][:ck.pick(150, 1500)]
         tasks.append(('live', {'mode': 'live', 'files': live_files}, deps))
-    timeout = ck.pick(300, 1500)
+    timeout = ck.pick(900, 2400)
     with ThreadPoolExecutor(core.NCPU) as ex:
         outs = list(ex.map(lambda t: (t[0], run_worker(tree, t[1], t[0], timeout, t[2])), tasks))
     n, tok_hist, gen_stats = {}, {}, {}
